@@ -1,3 +1,4 @@
+from common import guarded
 """C01  Streaming mean and variance equal the exact statistics of the data.  Engine RS + VL."""
 import terms as tm
 from terms import T, UINT, REAL, TRUE, And, Not, Or, real
@@ -62,11 +63,11 @@ def run(tier, seed):
                       n_cases(1, lambda n: ("eq", M2 / real(n)), extra_hyps=[M2.ge(0)]),
                       lambda n: mr.fixed_state(cr, "Variance", n, avg, {2: M2}))
     obs = pr.obs
-    obs += vl.run_lemmas("C01", ["lemma_fold", "swap"])
+    obs += guarded("C01.engine.vl.run_lemmas@L65", lambda: vl.run_lemmas("C01", ["lemma_fold", "swap"]))
     import envelope
-    obs += envelope.guard_moments("C01", "Variance", ["mean", "population_variance", "sample_variance", "variance_of_mean", "error"],
-                                  "src/moments/variance.rs::Variance (add-only histories)")
-    obs += envelope.guard_moments("C01", "Mean", ["mean"], "src/moments/mean.rs::Mean (add-only histories)")
+    obs += guarded("C01.engine.envelope.guard_moments@L67", lambda: envelope.guard_moments("C01", "Variance", ["mean", "population_variance", "sample_variance", "variance_of_mean", "error"],
+                                  "src/moments/variance.rs::Variance (add-only histories)"))
+    obs += guarded("C01.engine.envelope.guard_moments@L69", lambda: envelope.guard_moments("C01", "Mean", ["mean"], "src/moments/mean.rs::Mean (add-only histories)"))
     meta = {
         "level": "proof",
         "checker_cmd": "./check C01 (rsx -> RS executor -> sympy normal form / z3 %s QF_NRA; verus history.rs)" % __import__("backends").Z3_VERSION,
